@@ -149,6 +149,7 @@ TrDeps ==
           <<(e.store # NoC /\ e.store \in DOMAIN disk /\ ~cfg.dryRun /\ e.new # -1) => e.post = e.new, "Deps:disk-differs-from-diff">>,
           <<(e.store # NoC /\ e.store \in DOMAIN disk /\ cfg.dryRun) => e.post = disk[e.store], "Deps:dry-run-wrote">>,
           <<e.othersUntouched, "Deps:more-than-one-manifest-touched">>,
+          <<e.shapeOk, "Deps:malformed-changeset">>,
           <<e.err = "none", "Deps:exception-escaped">> >>))
 
 TrReportBuilt ==
